@@ -105,6 +105,34 @@ Theorem c13_remove_all_empties : forall vh cap, inj vh cap -> forall ops,
 Proof. exact remove_all_empties. Qed.
 Print Assumptions c13_remove_all_empties.
 
+(* the same node every time while membership is unchanged, for every key value: repeated lookups agree *)
+Theorem c13_lookup_repeatable : forall vh cap, inj vh cap -> forall hf ops k i1 i2,
+  get_key hf (run vh cap ops) k i1 = get_key hf (run vh cap ops) k i2.
+Proof. exact key_repeatable. Qed.
+Print Assumptions c13_lookup_repeatable.
+
+(* no stale answer: after Remove n no lookup returns n, whatever was looked up before the removal *)
+Theorem c13_lookup_after_remove : forall vh cap, inj vh cap -> forall hf ops k i n,
+  get_key hf (run vh cap (ops ++ [Remove n])) k i <> Ok (Some n).
+Proof. exact key_after_remove. Qed.
+Print Assumptions c13_lookup_after_remove.
+
+(* a ring built from a configuration (AddWithWeight (node i) (ws[i]) in order, as cache.New / kv.NewStore do):
+   every node keeps ITS weight wherever weight-0 entries sit, and a weight-0 entry receives no key *)
+Theorem c13_config_keeps_weights : forall cap top ws i w, nth_error ws i = Some w ->
+  In (i, Nat.min (weight_replicas cap w top) cap) (members_of cap (config_ops cap top ws)).
+Proof. exact config_members. Qed.
+Print Assumptions c13_config_keeps_weights.
+
+Theorem c13_config_drained_no_keys : forall vh cap, inj vh cap -> forall top ws i x inner,
+  nth_error ws i = Some 0%nat -> get (run vh cap (config_ops cap top ws)) x inner <> Ok (Some i).
+Proof. exact config_zero_no_keys. Qed.
+Print Assumptions c13_config_drained_no_keys.
+
+Example c13_config_example :
+  members_of 4 (config_ops 4 4 [0; 4; 2]%nat) = [(2, 2); (1, 4); (0, 0)]%nat.
+Proof. vm_compute. reflexivity. Qed.
+
 Require Coq.Strings.String.
 Import Coq.Strings.String.StringSyntax.
 Local Open Scope string_scope.
